@@ -940,6 +940,88 @@ def check_contraction_shapes(model, rep, oracle):
         raise AnalysisError('R07.13: oracle cases missing')
 
 
+def check_result_shapes(model, rep, oracle):
+    """R07.14: composite implementations with axis arguments (transpose, swapaxes, sum, prod, any, all, trace, diagonal, stack) are
+    interpreted over labelled shapes, down through the implementations they call and through _Transpose._end itself, for the calls
+    listed in the oracle; the result must have the shape NumPy documents, with the axes in NumPy's order."""
+    from sa.shapes import ShapeExec, Arr, ShapeError, Raised
+    m, regs = registrations(model)
+    impls = {}
+    for fn, names in regs:
+        for nme in names:
+            impls[nme] = fn
+    impls['_contract'] = model.func('function:_contract').node
+    end = model.func('function:_Transpose._end').node
+
+    def conv(x):
+        if isinstance(x, dict):
+            return Arr(x['a'], dtype=x.get('dtype', 'float'))
+        if isinstance(x, list):
+            return [conv(y) for y in x]
+        return x
+    verdict = {}
+    ncases = 0
+    for case in oracle['result_shapes']:
+        f = case['f']
+        if f not in impls:
+            raise AnalysisError(f'{f} implementation not found')
+        ncases += 1
+        if f in verdict and verdict[f] is not None:
+            continue
+        verdict.setdefault(f, None)
+        args = [conv(a) for a in case['args']]
+        try:
+            r = ShapeExec({}, impls, end).sub(impls[f], args)
+        except Raised:
+            verdict[f] = (case, 'the call is rejected')
+            continue
+        except ShapeError as e:
+            verdict[f] = (case, str(e))
+            continue
+        except Unsupported as e:
+            raise AnalysisError(f'{f}: the shape interpreter does not know a construct: {e}')
+        if not isinstance(r, Arr) or r.shape != case['shape']:
+            verdict[f] = (case, f'the result has shape ({", ".join(r.shape) if isinstance(r, Arr) else r}), NumPy gives ({", ".join(case["shape"])})')
+    # the contract of the helper every axis-taking implementation relies on: to_end(a, *axes) moves the listed axes to the end IN THE
+    # LISTED ORDER and keeps the relative order of the others; from_end is its inverse.  Exhaustive for up to 4 axes.
+    import itertools
+    bad_end = None
+    nend = 0
+    for n in range(1, 5):
+        labels = [f'L{k}' for k in range(n)]
+        for r in range(0, min(n, 3) + 1):
+            for axes in itertools.permutations(range(n), r):
+                for spelled in (axes, tuple(a - n for a in axes)):
+                    nend += 1
+                    try:
+                        t = ShapeExec({}, impls, end).transpose_end(Arr(labels), list(spelled), False)
+                        want = [l for k, l in enumerate(labels) if k not in axes] + [labels[k] for k in axes]
+                        if t.shape != want:
+                            bad_end = bad_end or (f'to_end of ({", ".join(labels)}) with axes {spelled} gives ({", ".join(t.shape)}), the listed axes in the listed order at the end would be ({", ".join(want)})')
+                            continue
+                        back = ShapeExec({}, impls, end).transpose_end(t, list(spelled), True)
+                        if back.shape != labels:
+                            bad_end = bad_end or (f'from_end does not invert to_end for axes {spelled} of {n}: ({", ".join(back.shape)})')
+                    except ShapeError as e:
+                        bad_end = bad_end or f'to_end/from_end with axes {spelled} of {n}: {e}'
+                    except Raised:
+                        bad_end = bad_end or f'to_end/from_end rejects the valid axes {spelled} of {n}'
+                    except Unsupported as e:
+                        raise AnalysisError(f'_Transpose._end: the shape interpreter does not know a construct: {e}')
+    endf = model.func('function:_Transpose._end')
+    rep.ob('R07.14', endf.key, endf.where(), bad_end is None, f'_Transpose.to_end moves the listed axes to the end in the listed order and from_end inverts it ({nend} axis lists of up to 4 axes, interpreted)' if bad_end is None else
+           bad_end + ': implementations that slice or reduce the trailing axes after to_end (diagonal and trace with an offset, dot, cross, take) then act on the wrong axes', statement='to_end-contract')
+    def show(a):
+        return '(' + ', '.join(a['a']) + ')' if isinstance(a, dict) else '[' + ', '.join(show(x) for x in a) + ']' if isinstance(a, list) else repr(a)
+    for f, bad in verdict.items():
+        fn = impls[f]
+        rep.ob('R07.14', f'function:__implementations__.{fn.name}', f'{m.relpath}:{fn.lineno}', bad is None,
+               f'{f}: all oracle calls give NumPy\'s result shape (labelled-shape interpretation through the called implementations and _Transpose._end)' if bad is None else
+               f'{f}({", ".join(show(a) for a in bad[0]["args"])}): {bad[1]}', statement=f'result-shape {f}')
+    if ncases < 20:
+        raise AnalysisError('R07.14: oracle cases missing')
+
+
 def _ord(fn, node):
     calls = [c for c in ast.walk(fn) if isinstance(c, ast.Call) and src(c.func) == '_Wrapper']
     calls.sort(key=lambda c: (c.lineno, c.col_offset))
@@ -979,6 +1061,7 @@ def run(model, rep, tier):
     rep.rule('R07.11', 'boolean operands: absolute is the identity, contractions stay boolean, a boolean subscript is a mask')
     rep.rule('R07.12', 'build-time divisions by axis lengths are preceded by a test that excludes zero (empty arrays)')
     rep.rule('R07.13', 'dot/matmul/vdot contract the axis that carries the contracted length of both operands and return NumPy\'s shape (labelled-shape interpretation)')
+    rep.rule('R07.14', 'composite implementations with axis arguments deliver NumPy\'s result shape for the oracle calls (labelled-shape interpretation)')
     rep.rule('R07.8', 'every _Transpose is constructed from normalised, permutation-checked axes')
     rep.trusted_base.append('oracles/numpy_api.json (NumPy documented semantics)')
     check_chains(model, rep, oracle)
@@ -992,6 +1075,7 @@ def run(model, rep, tier):
     check_boolean_cases(model, rep, oracle)
     check_build_time_division(model, rep)
     check_contraction_shapes(model, rep, oracle)
+    check_result_shapes(model, rep, oracle)
     check_namespace_table(model, rep, oracle)
     rep.require('R07.1', 55)
     rep.require('R07.2', 40)
